@@ -312,7 +312,9 @@ def run_property(prop, tier, seed):
         print(f"KNOWN-FINDING: property={prop} {k['what_fails']}" + ("" if k["property"] == prop else f" (recorded under {k['property']})"))
     wall = time.time() - t0
     n_proved = sum(1 for it in ev_items if it.get("status") == "proved")
-    level = "proof" if (total_obl > 0 and total_dis == total_obl) else "other"
+    n_declared_bounded = sum(1 for it in ev_items if it.get("bounded_only"))
+    # `proof` only when every item that is not a declared bounded stand-in was discharged completely
+    level = "proof" if (total_obl > 0 and total_dis == total_obl and n_proved == len(ev_items) - n_declared_bounded) else "other"
     cov = {
         "obligations": total_obl,
         "discharged": total_dis,
@@ -323,6 +325,7 @@ def run_property(prop, tier, seed):
         "items_total": len(ev_items),
         "items_proved": n_proved,
         "items_bounded_only": sum(1 for it in ev_items if it.get("status") != "proved"),
+        "items_declared_bounded_stand_in": n_declared_bounded,
         "bounded_cases": bounded_total,
         "bounded_distinct_ok": bounded_distinct,
         "samples": samples[:8] or [f"bounded: {bounded_total} native contract evaluations"],
